@@ -1224,7 +1224,10 @@ impl StreamingQueueCompressor {
         let sample_priorities: Arc<RwLock<BTreeMap<String, i32>>> =
             Arc::new(RwLock::new(BTreeMap::new()));
         let last_sample_name: Arc<Mutex<Option<String>>> = Arc::new(Mutex::new(None)); // Track last sample for boundary detection
-        let next_priority = Arc::new(Mutex::new(i32::MAX)); // Start high, decrease for each sample
+        // Start high, decrease for each sample.  Leave headroom for the boost that push() adds
+        // to sync tokens (priority + 1_000_000): starting at i32::MAX made that addition
+        // overflow (panic with overflow checks, silent wrap to a very low priority without).
+        let next_priority = Arc::new(Mutex::new(i32::MAX - 1_000_000));
         let next_sequence = Arc::new(std::sync::atomic::AtomicU64::new(0)); // Increases for each contig (FASTA order)
         let global_contig_count = Arc::new(AtomicUsize::new(0)); // GLOBAL counter across all samples (C++ AGC: cnt_contigs_in_sample)
 
